@@ -20,6 +20,7 @@ CONSTANTS
   HandlerIds = {}
   Kinds = {"fd"}
   Keys = {1}
+  BadKeys = {}
   SrcOpts <- Opts_plain
   EvKinds = {"ps", "tb", "fd"}
   MaxBatch = 2
